@@ -175,6 +175,10 @@ def run_case(C, model, first_gen=None):
         res.update(reproduced=False, reason="model does not satisfy requires natively")
         return res
     fn, rest = resolve(C.fn)
+    import inspect
+    if inspect.ismethod(fn) and isinstance(fn.__self__, type):
+        # classmethod: the contract passes the class slot explicitly
+        argsA, argsB, old = argsA[1:], argsB[1:], old
     if len(rest) == 2 and not isinstance(fn, staticmethod) and not hasattr(argsA[0], "_verif_tracked"):
         # method given without a real self: contracts for p_* pass self explicitly
         pass
